@@ -14,7 +14,10 @@ JUMPFALSE / JUMP, BREAK rewritten per clause to the end of the switch and in the
 its own end, CONTINUE left for the enclosing loop, `rw_rwB`): a `break` in any clause leaves the
 switch and nothing else, a `continue` reaches the enclosing loop's continue target.
 
-PARTIAL: `range`, `return`, tagged switches' hidden tag variable and the staged peephole passes are
+`return` is in the theorem as well (signal `ret`: the RETURN instruction ends the frame, loops and
+switches pass the signal on, `body_correct` covers bodies that fall off their end or return).
+
+PARTIAL: `range`, tagged switches' hidden tag variable and the staged peephole passes are
 not in this theorem; they are covered by the instruction-for-instruction correspondence of the
 emitted jump skeleton, by C07's verifier on all emitted code, and by Go-toolchain runs of nests
 enumerated exhaustively for small depths.
@@ -70,22 +73,38 @@ theorem rw_swc (ok : LeavesOK M L) (db dc : Nat) (c : Nat) (a r : Stmt) :
 
 theorem compile_correct (ok : LeavesOK M L) {s : Stmt} {st : σ} {o : Out} {st' : σ} (h : Exec M s st o st') :
     ∀ (C : List Instr) (pc db dc : Nat) (stk : List Bool), CodeAt C pc (rw db dc (compile L s)) →
-      Star M L C (pc, stk, st) (pc + (compile L s).length + offs db dc o, stk, st') ∧
-      Star M L C (entry2 L pc s, stk, st) (pc + (compile L s).length + offs db dc o, stk, st') := by
+      Star M L C (pc, stk, st) (tgt C.length pc (compile L s).length db dc o, stk, st') ∧
+      Star M L C (entry2 L pc s, stk, st) (tgt C.length pc (compile L s).length db dc o, stk, st') := by
   induction h with
   | @act n s =>
     intro C pc db dc stk hc
     simp only [compile] at hc
     rw [rw_noPH _ _ _ (ok.act_noPH n)] at hc
     have := run_act ok (stk := stk) (s := s) hc
-    simp only [compile, offs, entry2, Nat.add_zero]
+    simp only [compile, tgt, offs, entry2, Nat.add_zero]
+    exact ⟨this, this⟩
+  | @ret n s =>
+    intro C pc db dc stk hc
+    have hnp : ∀ i ∈ compile L (.ret n), isPH i = false := by
+      intro i hi
+      simp only [compile, List.mem_append, List.mem_singleton] at hi
+      rcases hi with hi | hi
+      · exact ok.act_noPH n i hi
+      · subst hi; rfl
+    rw [rw_noPH _ _ _ hnp] at hc
+    simp only [compile] at hc
+    have h1 := run_act ok (stk := stk) (s := s) hc.left
+    have h2 : Step M L C (pc + (L.act n).length, stk, M.act n s) (C.length, stk, M.act n s) :=
+      Step.ret hc.right.head rfl
+    have := Star.trans M L h1 (Star.one M L h2)
+    simp only [tgt, entry2]
     exact ⟨this, this⟩
   | @brk s =>
     intro C pc db dc stk hc
     simp only [compile, rw, rwI, List.length_nil, if_true] at hc
     have hs : Step M L C (pc, stk, s) (pc + 1 + db, stk, s) :=
       Step.jmp (CodeAt.head hc) rfl (by push_cast; omega)
-    simp only [compile, offs, entry2, List.length_singleton]
+    simp only [compile, tgt, offs, entry2, List.length_singleton]
     exact ⟨Star.one M L hs, Star.one M L hs⟩
   | @cont s =>
     intro C pc db dc stk hc
@@ -94,7 +113,7 @@ theorem compile_correct (ok : LeavesOK M L) {s : Stmt} {st : σ} {o : Out} {st' 
     rw [e] at hc
     have hs : Step M L C (pc, stk, s) (pc + 1 + dc, stk, s) :=
       Step.jmp (CodeAt.head hc) rfl (by push_cast; omega)
-    simp only [compile, offs, entry2, List.length_singleton]
+    simp only [compile, tgt, offs, entry2, List.length_singleton]
     exact ⟨Star.one M L hs, Star.one M L hs⟩
   | @seqN a b s s1 o s2 _ _ iha ihb =>
     intro C pc db dc stk hc
@@ -103,19 +122,22 @@ theorem compile_correct (ok : LeavesOK M L) {s : Stmt} {st : σ} {o : Out} {st' 
     have hr := hc.right
     simp only [rw_length] at hr
     have h2 := (ihb C _ db dc stk hr).1
-    simp only [offs, Nat.add_zero] at h1
+    simp only [tgt, offs, Nat.add_zero] at h1
     have := Star.trans M L h1 h2
     simp only [compile, entry2, List.length_append]
-    rw [show pc + ((compile L a).length + (compile L b).length) = pc + (compile L a).length + (compile L b).length by omega]
+    have e : tgt C.length (pc + (compile L a).length) (compile L b).length db dc o
+        = tgt C.length pc ((compile L a).length + (compile L b).length) db dc o := by
+      cases o <;> simp [tgt] <;> omega
+    rw [e] at this
     exact ⟨this, this⟩
   | @seqX a b s o s1 _ hne iha =>
     intro C pc db dc stk hc
     simp only [compile, rw_append] at hc
     have h1 := (iha C pc _ _ stk hc.left).1
     simp only [compile, entry2, List.length_append]
-    have : pc + (compile L a).length + offs (db + (compile L b).length) (dc + (compile L b).length) o
-         = pc + ((compile L a).length + (compile L b).length) + offs db dc o := by
-      cases o <;> simp [offs] at * <;> omega
+    have : tgt C.length pc (compile L a).length (db + (compile L b).length) (dc + (compile L b).length) o
+         = tgt C.length pc ((compile L a).length + (compile L b).length) db dc o := by
+      cases o <;> simp [tgt, offs] at * <;> omega
     rw [this] at h1
     exact ⟨h1, h1⟩
   | @iteT c a b s o s' hcnd _ iha =>
@@ -136,20 +158,23 @@ theorem compile_correct (ok : LeavesOK M L) {s : Stmt} {st : σ} {o : Out} {st' 
       have s4 : Step M L C (pc + (L.cnd c).length + 1 + (compile L a).length, stk, s')
           (pc + (L.cnd c).length + 1 + (compile L a).length + 1 + (compile L b).length, stk, s') :=
         Step.jmp hJ2.head rfl (by simp [jump]; omega)
-      simp only [offs, Nat.add_zero] at pre ⊢
+      simp only [tgt, offs, Nat.add_zero] at pre ⊢
       have := Star.trans M L pre (Star.one M L s4)
       rw [show pc + ((L.cnd c).length + (0 + 1) + (compile L a).length + (0 + 1) + (compile L b).length)
             = pc + (L.cnd c).length + 1 + (compile L a).length + 1 + (compile L b).length by omega]
       exact ⟨this, this⟩
     | brk =>
-      simp only [offs] at pre ⊢
+      simp only [tgt, offs] at pre ⊢
       rw [show pc + ((L.cnd c).length + (0 + 1) + (compile L a).length + (0 + 1) + (compile L b).length) + db
             = pc + (L.cnd c).length + 1 + (compile L a).length + (db + ((compile L b).length + 1)) by omega]
       exact ⟨pre, pre⟩
     | cont =>
-      simp only [offs] at pre ⊢
+      simp only [tgt, offs] at pre ⊢
       rw [show pc + ((L.cnd c).length + (0 + 1) + (compile L a).length + (0 + 1) + (compile L b).length) + dc
             = pc + (L.cnd c).length + 1 + (compile L a).length + (dc + ((compile L b).length + 1)) by omega]
+      exact ⟨pre, pre⟩
+    | ret =>
+      simp only [tgt] at pre ⊢
       exact ⟨pre, pre⟩
   | @iteF c a b s o s' hcnd _ ihb =>
     intro C pc db dc stk hc
@@ -165,8 +190,10 @@ theorem compile_correct (ok : LeavesOK M L) {s : Stmt} {st : σ} {o : Out} {st' 
     have h3 := (ihb C _ db dc stk hB).1
     have pre := Star.trans M L s1 (Star.step s2 h3)
     simp only [compile, entry2, List.length_append, List.length_cons, List.length_nil]
-    rw [show pc + ((L.cnd c).length + (0 + 1) + (compile L a).length + (0 + 1) + (compile L b).length) + offs db dc o
-          = pc + (L.cnd c).length + 1 + (compile L a).length + 1 + (compile L b).length + offs db dc o by omega]
+    have e : tgt C.length (pc + (L.cnd c).length + 1 + (compile L a).length + 1) (compile L b).length db dc o
+        = tgt C.length pc ((L.cnd c).length + (0 + 1) + (compile L a).length + (0 + 1) + (compile L b).length) db dc o := by
+      cases o <;> simp [tgt] <;> omega
+    rw [e] at pre
     exact ⟨pre, pre⟩
   | @iftT c a s o s' hcnd _ iha =>
     intro C pc db dc stk hc
@@ -178,8 +205,10 @@ theorem compile_correct (ok : LeavesOK M L) {s : Stmt} {st : σ} {o : Out} {st' 
     have h3 := (iha C _ db dc stk hJ.tail).1
     have pre := Star.trans M L s1 (Star.step s2 h3)
     simp only [compile, entry2, List.length_append, List.length_cons, List.length_nil]
-    rw [show pc + ((L.cnd c).length + (0 + 1) + (compile L a).length) + offs db dc o
-          = pc + (L.cnd c).length + 1 + (compile L a).length + offs db dc o by omega]
+    have e : tgt C.length (pc + (L.cnd c).length + 1) (compile L a).length db dc o
+        = tgt C.length pc ((L.cnd c).length + (0 + 1) + (compile L a).length) db dc o := by
+      cases o <;> simp [tgt] <;> omega
+    rw [e] at pre
     exact ⟨pre, pre⟩
   | @iftF c a s hcnd =>
     intro C pc db dc stk hc
@@ -191,7 +220,7 @@ theorem compile_correct (ok : LeavesOK M L) {s : Stmt} {st : σ} {o : Out} {st' 
         (pc + (L.cnd c).length + 1 + (compile L a).length, stk, M.ceff c s) :=
       Step.jfF hJ.head rfl (by simp [jump]; omega)
     have pre := Star.trans M L s1 (Star.one M L s2)
-    simp only [compile, entry2, offs, List.length_append, List.length_cons, List.length_nil, Nat.add_zero]
+    simp only [compile, entry2, tgt, offs, List.length_append, List.length_cons, List.length_nil, Nat.add_zero]
     rw [show pc + ((L.cnd c).length + (0 + 1) + (compile L a).length)
           = pc + (L.cnd c).length + 1 + (compile L a).length by omega]
     exact ⟨pre, pre⟩
@@ -210,11 +239,11 @@ theorem compile_correct (ok : LeavesOK M L) {s : Stmt} {st : σ} {o : Out} {st' 
     rw [hcnd] at s1
     have s2 := Step.jtF (M := M) (L := L) (stk := stk) (s := M.ceff c s) hJT.head rfl
     have two := Star.trans M L s1 (Star.one M L s2)
-    simp only [compile, entry2, offs, List.length_append, List.length_cons, List.length_nil, rw_length, Nat.add_zero]
+    simp only [compile, entry2, tgt, offs, List.length_append, List.length_cons, List.length_nil, rw_length, Nat.add_zero]
     rw [show pc + (0 + 1 + (compile L b).length + (L.act p).length + (L.cnd c).length + (0 + 1))
           = pc + 1 + (compile L b).length + (L.act p).length + (L.cnd c).length + 1 by omega]
     exact ⟨Star.step s0 two, two⟩
-  | @loopT c b p s o s1 s3 hcnd _ hne _ ihb ihl =>
+  | @loopT c b p s o s1 o3 s3 hcnd _ hne hnr _ ihb ihl =>
     intro C pc db dc stk hc
     have hc0 := hc
     rw [rw_noPH _ _ _ (loop_code_noPH ok c b p)] at hc
@@ -232,15 +261,36 @@ theorem compile_correct (ok : LeavesOK M L) {s : Stmt} {st : σ} {o : Out} {st' 
         (pc + 1, stk, M.ceff c s) :=
       Step.jtT hJT.head rfl (by simp [jump]; omega)
     have h3 := (ihb C (pc+1) (1 + (L.act p).length + (L.cnd c).length) 0 stk hB).1
-    have e3 : pc + 1 + (compile L b).length + offs (1 + (L.act p).length + (L.cnd c).length) 0 o
+    have e3 : tgt C.length (pc + 1) (compile L b).length (1 + (L.act p).length + (L.cnd c).length) 0 o
         = pc + 1 + (compile L b).length := by
-      cases o <;> simp [offs] at *
+      cases o <;> simp [tgt, offs] at *
     rw [e3] at h3
     have t4 := run_act ok (stk := stk) (s := s1) hP.left
     have h5 := (ihl C pc db dc stk hc0).2
     simp only [entry2] at h5
     have two := Star.trans M L t1 (Star.step t2 (Star.trans M L h3 (Star.trans M L t4 h5)))
     simp only [entry2]
+    exact ⟨Star.step s0 two, two⟩
+  | @loopR c b p s s1 hcnd _ ihb =>
+    intro C pc db dc stk hc
+    rw [rw_noPH _ _ _ (loop_code_noPH ok c b p)] at hc
+    simp only [compile, List.append_assoc, List.cons_append, List.nil_append] at hc
+    have hB := hc.tail.left
+    have hP := hc.tail.right
+    simp only [rw_length] at hP
+    have hCn := hP.right
+    have hJT := hCn.right
+    have s0 : Step M L C (pc, stk, s) (pc + 1 + (compile L b).length + (L.act p).length, stk, s) :=
+      Step.jmp hc.head rfl (by simp [jump]; omega)
+    have t1 := run_cnd ok (stk := stk) (s := s) hCn.left
+    rw [hcnd] at t1
+    have t2 : Step M L C (pc + 1 + (compile L b).length + (L.act p).length + (L.cnd c).length, true :: stk, M.ceff c s)
+        (pc + 1, stk, M.ceff c s) :=
+      Step.jtT hJT.head rfl (by simp [jump]; omega)
+    have h3 := (ihb C (pc+1) (1 + (L.act p).length + (L.cnd c).length) 0 stk hB).1
+    simp only [tgt] at h3
+    have two := Star.trans M L t1 (Star.step t2 h3)
+    simp only [entry2, tgt]
     exact ⟨Star.step s0 two, two⟩
   | @loopB c b p s s1 hcnd _ ihb =>
     intro C pc db dc stk hc
@@ -259,13 +309,13 @@ theorem compile_correct (ok : LeavesOK M L) {s : Stmt} {st : σ} {o : Out} {st' 
         (pc + 1, stk, M.ceff c s) :=
       Step.jtT hJT.head rfl (by simp [jump]; omega)
     have h3 := (ihb C (pc+1) (1 + (L.act p).length + (L.cnd c).length) 0 stk hB).1
-    simp only [offs] at h3
+    simp only [tgt, offs] at h3
     have two := Star.trans M L t1 (Star.step t2 h3)
-    simp only [compile, entry2, offs, List.length_append, List.length_cons, List.length_nil, rw_length, Nat.add_zero]
+    simp only [compile, entry2, tgt, offs, List.length_append, List.length_cons, List.length_nil, rw_length, Nat.add_zero]
     rw [show pc + (0 + 1 + (compile L b).length + (L.act p).length + (L.cnd c).length + (0 + 1))
           = pc + 1 + (compile L b).length + (1 + (L.act p).length + (L.cnd c).length) by omega]
     exact ⟨Star.step s0 two, two⟩
-  | @foreverT b p s o s1 s3 _ hne _ ihb ihl =>
+  | @foreverT b p s o s1 o3 s3 _ hne hnr _ ihb ihl =>
     intro C pc db dc stk hc
     have hc0 := hc
     rw [rw_noPH _ _ _ (forever_code_noPH ok b p)] at hc
@@ -275,8 +325,8 @@ theorem compile_correct (ok : LeavesOK M L) {s : Stmt} {st : σ} {o : Out} {st' 
     simp only [rw_length] at hP
     have hJ := hP.right
     have h3 := (ihb C pc (1 + (L.act p).length) 0 stk hB).1
-    have e3 : pc + (compile L b).length + offs (1 + (L.act p).length) 0 o = pc + (compile L b).length := by
-      cases o <;> simp [offs] at *
+    have e3 : tgt C.length pc (compile L b).length (1 + (L.act p).length) 0 o = pc + (compile L b).length := by
+      cases o <;> simp [tgt, offs] at *
     rw [e3] at h3
     have t4 := run_act ok (stk := stk) (s := s1) hP.left
     have t5 : Step M L C (pc + (compile L b).length + (L.act p).length, stk, M.act p s1) (pc, stk, M.act p s1) :=
@@ -285,31 +335,40 @@ theorem compile_correct (ok : LeavesOK M L) {s : Stmt} {st : σ} {o : Out} {st' 
     have all := Star.trans M L h3 (Star.trans M L t4 (Star.step t5 h6))
     simp only [entry2]
     exact ⟨all, all⟩
+  | @foreverR b p s s1 _ ihb =>
+    intro C pc db dc stk hc
+    rw [rw_noPH _ _ _ (forever_code_noPH ok b p)] at hc
+    simp only [compile, List.append_assoc] at hc
+    have hB := hc.left
+    have h3 := (ihb C pc (1 + (L.act p).length) 0 stk hB).1
+    simp only [tgt] at h3
+    simp only [entry2, tgt]
+    exact ⟨h3, h3⟩
   | @foreverB b p s s1 _ ihb =>
     intro C pc db dc stk hc
     rw [rw_noPH _ _ _ (forever_code_noPH ok b p)] at hc
     simp only [compile, List.append_assoc] at hc
     have hB := hc.left
     have h3 := (ihb C pc (1 + (L.act p).length) 0 stk hB).1
-    simp only [offs] at h3
-    simp only [compile, entry2, offs, List.length_append, List.length_cons, List.length_nil, rw_length, Nat.add_zero]
+    simp only [tgt, offs] at h3
+    simp only [compile, entry2, tgt, offs, List.length_append, List.length_cons, List.length_nil, rw_length, Nat.add_zero]
     rw [show pc + ((compile L b).length + (L.act p).length + (0 + 1))
           = pc + (compile L b).length + (1 + (L.act p).length) by omega]
     exact ⟨h3, h3⟩
-
   | @swdN d s o s' _ hne ihd =>
     intro C pc db dc stk hc
     rw [rw_swd] at hc
     have h3 := (ihd C pc 0 dc stk hc).1
     simp only [compile, entry2, rwB_length]
-    have : offs 0 dc o = offs db dc o := by cases o <;> simp [offs] at hne ⊢
+    have : tgt C.length pc (compile L d).length 0 dc o = tgt C.length pc (compile L d).length db dc o := by
+      cases o <;> simp [tgt, offs] at hne ⊢
     rw [this] at h3
     exact ⟨h3, h3⟩
   | @swdB d s s' _ ihd =>
     intro C pc db dc stk hc
     rw [rw_swd] at hc
     have h3 := (ihd C pc 0 dc stk hc).1
-    simp only [compile, entry2, rwB_length, offs, Nat.add_zero] at h3 ⊢
+    simp only [compile, entry2, rwB_length, tgt, offs, Nat.add_zero] at h3 ⊢
     exact ⟨h3, h3⟩
   | @swcT c a r s o s' hcnd _ hne iha =>
     intro C pc db dc stk hc
@@ -329,16 +388,19 @@ theorem compile_correct (ok : LeavesOK M L) {s : Stmt} {st : σ} {o : Out} {st' 
       have s4 : Step M L C (pc + (L.cnd c).length + 1 + (compile L a).length, stk, s')
           (pc + (L.cnd c).length + 1 + (compile L a).length + 1 + (compile L r).length, stk, s') :=
         Step.jmp hJ2.head rfl (by simp [jump]; omega)
-      simp only [offs, Nat.add_zero] at pre ⊢
+      simp only [tgt, offs, Nat.add_zero] at pre ⊢
       have := Star.trans M L pre (Star.one M L s4)
       rw [show pc + ((L.cnd c).length + (0 + 1) + (compile L a).length + (0 + 1) + (compile L r).length)
             = pc + (L.cnd c).length + 1 + (compile L a).length + 1 + (compile L r).length by omega]
       exact ⟨this, this⟩
     | brk => exact absurd rfl hne
     | cont =>
-      simp only [offs] at pre ⊢
+      simp only [tgt, offs] at pre ⊢
       rw [show pc + ((L.cnd c).length + (0 + 1) + (compile L a).length + (0 + 1) + (compile L r).length) + dc
             = pc + (L.cnd c).length + 1 + (compile L a).length + (dc + ((compile L r).length + 1)) by omega]
+      exact ⟨pre, pre⟩
+    | ret =>
+      simp only [tgt] at pre ⊢
       exact ⟨pre, pre⟩
   | @swcB c a r s s' hcnd _ iha =>
     intro C pc db dc stk hc
@@ -350,7 +412,7 @@ theorem compile_correct (ok : LeavesOK M L) {s : Stmt} {st : σ} {o : Out} {st' 
     have hA := hJ.tail.left
     have h3 := (iha C _ _ _ stk hA).1
     have pre := Star.trans M L s1 (Star.step s2 h3)
-    simp only [compile, entry2, List.length_append, List.length_cons, List.length_nil, rwB_length, offs, Nat.add_zero] at pre ⊢
+    simp only [compile, entry2, List.length_append, List.length_cons, List.length_nil, rwB_length, tgt, offs, Nat.add_zero] at pre ⊢
     rw [show pc + ((L.cnd c).length + (0 + 1) + (compile L a).length + (0 + 1) + (compile L r).length)
           = pc + (L.cnd c).length + 1 + (compile L a).length + ((compile L r).length + 1) by omega]
     exact ⟨pre, pre⟩
@@ -368,18 +430,23 @@ theorem compile_correct (ok : LeavesOK M L) {s : Stmt} {st : σ} {o : Out} {st' 
     have h3 := (ihr C _ db dc stk hR).1
     have pre := Star.trans M L s1 (Star.step s2 h3)
     simp only [compile, entry2, List.length_append, List.length_cons, List.length_nil, rwB_length]
-    rw [show pc + ((L.cnd c).length + (0 + 1) + (compile L a).length + (0 + 1) + (compile L r).length) + offs db dc o
-          = pc + (L.cnd c).length + 1 + (compile L a).length + 1 + (compile L r).length + offs db dc o by omega]
+    have e : tgt C.length (pc + (L.cnd c).length + 1 + (compile L a).length + 1) (compile L r).length db dc o
+        = tgt C.length pc ((L.cnd c).length + (0 + 1) + (compile L a).length + (0 + 1) + (compile L r).length) db dc o := by
+      cases o <;> simp [tgt] <;> omega
+    rw [e] at pre
     exact ⟨pre, pre⟩
 
 /-- **C06 (core).** A whole function body (no enclosing loop: a stray `break`/`continue` does not
-    occur in valid Go) runs from its first instruction to just past its last one and produces the
-    state Go's semantics prescribes. -/
-theorem body_correct (ok : LeavesOK M L) {s : Stmt} {st st' : σ} (h : Exec M s st .normal st')
-    (stk : List Bool) :
+    occur in valid Go) runs from its first instruction to just past its last one — whether it falls
+    off its end or executes a `return` anywhere, at any depth of loops and switches — and produces
+    the state Go's semantics prescribes. -/
+theorem body_correct (ok : LeavesOK M L) {s : Stmt} {st st' : σ} {o : Out} (h : Exec M s st o st')
+    (ho : o = .normal ∨ o = .ret) (stk : List Bool) :
     Star M L (rw 0 0 (compile L s)) (0, stk, st) ((compile L s).length, stk, st') := by
   have := (compile_correct ok h (rw 0 0 (compile L s)) 0 0 0 stk ⟨[], [], by simp, rfl⟩).1
-  simpa [offs] using this
+  rcases ho with rfl | rfl
+  · simpa [tgt, offs] using this
+  · simpa [tgt] using this
 
 end Goat.Props.C06
 
@@ -413,7 +480,13 @@ example : LeavesOK demoSem demoLeaves :=
 
 /-- `for c(3) { if c(0) { break } ; t(5) }`: first iteration runs t(5), the second breaks -/
 example : Exec demoSem (.loop 3 (.seq (.ift 0 .brk) (.act 5)) 0) [] .normal [103, 100, 5, 103, 100] := by
-  refine .loopT (by decide) (.seqN (.iftF (by decide)) .act) (by decide) ?_
+  refine .loopT (by decide) (.seqN (.iftF (by decide)) .act) (by decide) (by decide) ?_
   exact .loopB (by decide) (.seqX (.iftT (by decide) .brk) (by decide))
+
+/-- `for c(3) { switch { case c(0): return t(9) ; default: t(5) } }`: the first iteration takes the
+    default clause, the second returns from inside the switch inside the loop -/
+example : Exec demoSem (.loop 3 (.swc 0 (.ret 9) (.swd (.act 5))) 0) [] .ret [103, 100, 5, 103, 100, 9] := by
+  refine .loopT (by decide) (.swcF (by decide) (.swdN .act (by decide))) (by decide) (by decide) ?_
+  exact .loopR (by decide) (.swcT (by decide) .ret (by decide))
 
 end Goat.Props.C06
